@@ -436,7 +436,8 @@ def run(facts, R):
         _c09.run(facts, sub)
     except Exception as e:
         sub.bad("anchor-resolution", "<crate>", "shared-C09-rules", "the shared end-of-stream rules could not run: %s" % e)
-    keep = ("one-terminal", "producer-errors-surface", "pull-decision-table", "last-flag-table", "eof-only-after-last", "anchor-resolution")
+    keep = ("one-terminal", "producer-errors-surface", "pull-decision-table", "last-flag-table", "eof-only-after-last", "anchor-resolution",
+            "one-next-per-chunk", "no-byte-discard")      # (... and what is committed on `last` is the whole stream: no chunk re-requested, dropped or repeated)
     for inst in sub.instances:
         if inst["rule"] in keep and inst["verdict"] == "holds":
             R.instances.append(inst)
